@@ -34,8 +34,9 @@ Replace(f, c) == [f EXCEPT !.a = File(c)]                        \* remove the n
 (* sky regions only) - an empty region file is still a complete new file; via: the list entry point (Regions.write) or the    *)
 (* single-region one (Region.write); opts: the writer's options left at their defaults or given (they shape the text, and a     *)
 (* bad one is one way for serialisation to fail).  None of the three changes which steps are taken, which is the point.       *)
+(* path: the destination named by a str or by an os.PathLike object - the same file either way.                                  *)
 Requests == {r \in [fmt : Formats, ow : BOOLEAN, ser : {"ok", "fail"}, dest : DestStates,
-                    content : {"regions", "nothing"}, via : {"list", "single"}, opts : {"default", "given"}] :
+                    content : {"regions", "nothing"}, via : {"list", "single"}, opts : {"default", "given"}, path : {"str", "pathlike"}] :
                r.via = "single" => r.content = "regions"}
 Init == /\ req \in Requests /\ fs = InitFs(req.dest) /\ result = "-"
         /\ pc = IF req.fmt = "fits" THEN "check" ELSE (IF SwapSteps THEN "open_first" ELSE "check")
